@@ -240,6 +240,18 @@ def check_sphinx(name, obj, st):
     if out != want and 'at 0x' not in want[0] + want[1]:
         st.violation('sphinx-hook-inconsistent', {'origin': 'sphinx', 'name': name},
                      {'object': name, 'hook': list(out), 'expected': list(want)}, {})
+        return
+    # independent of sigtools: the return annotation of a plain def, evaluated by inspect itself
+    if is_plain(target):
+        try:
+            own_ret = inspect.signature(target, eval_str=True).return_annotation
+        except Exception:  # noqa: not evaluable here, nothing to compare with
+            return
+        want_ret = '' if own_ret is inspect.Signature.empty else repr(own_ret)
+        st.inc('sphinx_return_annotations_compared')
+        if out[1] != want_ret and 'at 0x' not in want_ret:
+            st.violation('sphinx-hook-inconsistent', {'origin': 'sphinx', 'name': name},
+                         {'object': name, 'hook': list(out), 'return_annotation_of_the_def': want_ret}, {'part': 'return'})
 
 
 # ---------------------------------------------------------------------------
@@ -432,6 +444,60 @@ def check_adversarial(st):
         batch.close()
 
 
+GLOBALS_SRC = '''
+def GK_CALLEE(x, y=2, *, z=3):
+    return 0
+
+
+def GK_to_global(a, *args, **kwargs):
+    return GK_CALLEE(*args, **kwargs)
+
+
+def GK_to_builtin(a, *args, **kwargs):
+    return print(*args, **kwargs)
+
+
+def GK_to_builtin_type(a, *args, **kwargs):
+    return dict(*args, **kwargs)
+
+
+def GK_to_missing(a, *args, **kwargs):
+    return GK_NOT_DEFINED_ANYWHERE(*args, **kwargs)
+
+
+def GK_to_builtin_attr(a, *args, **kwargs):
+    return str.format(*args, **kwargs)
+
+
+class GK_Class(object):
+    def m(self, a, *args, **kwargs):
+        return sorted(*args, **kwargs)
+'''
+GLOBALS_NAMES = ('GK_to_global', 'GK_to_builtin', 'GK_to_builtin_type', 'GK_to_missing', 'GK_to_builtin_attr')
+
+
+def check_globals_kinds(st):
+    """The same sourced functions under the three shapes module globals take: __builtins__ a dict (imported modules),
+    the builtins module itself (__main__, python -c) and absent (exec without builtins entry removed afterwards)."""
+    import builtins
+    for kind in ('dict', 'module', 'absent'):
+        batch = progs.Batch(prelude='')
+        batch.add(GLOBALS_SRC, 10)
+        batch.load()
+        try:
+            mod = batch.modules[0]
+            if kind == 'module':
+                vars(mod)['__builtins__'] = builtins
+            elif kind == 'absent':
+                vars(mod).pop('__builtins__', None)
+            for nm in GLOBALS_NAMES:
+                check_object('globals[%s]:%s' % (kind, nm), batch.get(nm), st, 'globals')
+            check_object('globals[%s]:GK_Class().m' % kind, batch.get('GK_Class')().m, st, 'globals')
+            st.seen('adv_result', ('globals', kind, str(sigtools.signature(batch.get('GK_to_global')))))
+        finally:
+            batch.close()
+
+
 def menagerie():
     """Odd callables."""
     import collections
@@ -540,6 +606,7 @@ def shard(tier, sh):
                 st.sample({'module': modname, 'callables': n}, 1)
     elif kind == 'adversarial':
         check_adversarial(st)
+        check_globals_kinds(st)
     elif kind == 'menagerie':
         for name, obj in menagerie():
             check_object(name, obj, st, 'menagerie')
@@ -603,6 +670,8 @@ def replay(art):
         for name, obj in menagerie():
             if name == c['name']:
                 check_object(name, obj, st, 'menagerie')
+    elif c.get('origin') == 'globals':
+        check_globals_kinds(st)
     else:
         check_adversarial(st)
     return [v['detail'] for v in st.viol] or None
